@@ -448,8 +448,8 @@ def powU (x y : BitVec 32) : BitVec 32 :=
 
 /-- the do-while of sqrt, gtx/integer.inl:25-29 / 130-134:
     `do { CurrentAnswer = NextTrial; NextTrial = (NextTrial + x / NextTrial) >> 1; } while(NextTrial < CurrentAnswer);`
-    (Newton from x/2 is strictly decreasing until the root: ≤ 19 rounds for 32-bit x, measured exhaustively by
-    the thorough tier; when the fuel runs out the model returns the sentinel 0xFFFFFFFF) -/
+    (the trial value strictly decreases in every round that continues, so `fuel = x` rounds always suffice; the real
+    loop needs ≤ 19; were the fuel ever exhausted the model would return the sentinel 0xFFFFFFFF) -/
 def sqrtLoopU (x : BitVec 32) : Nat → BitVec 32 → BitVec 32
   | 0, _ => 0xFFFFFFFF#32
   | fuel+1, nextTrial =>
@@ -458,7 +458,7 @@ def sqrtLoopU (x : BitVec 32) : Nat → BitVec 32 → BitVec 32
     if nextTrial.ult currentAnswer then sqrtLoopU x fuel nextTrial else currentAnswer
 /-- sqrt(uint), gtx/integer.inl:123-137: `if(x <= 1) return x; NextTrial = x >> 1; …` -/
 def sqrtU (x : BitVec 32) : BitVec 32 :=
-  if x.ule 1 then x else sqrtLoopU x 40 (x >>> 1)
+  if x.ule 1 then x else sqrtLoopU x x.toNat (x >>> 1)
 def sqrtLoopS (x : BitVec 32) : Nat → BitVec 32 → BitVec 32
   | 0, _ => 0xFFFFFFFF#32
   | fuel+1, nextTrial =>
@@ -467,7 +467,7 @@ def sqrtLoopS (x : BitVec 32) : Nat → BitVec 32 → BitVec 32
     if nextTrial.slt currentAnswer then sqrtLoopS x fuel nextTrial else currentAnswer
 /-- sqrt(int), gtx/integer.inl:18-32 -/
 def sqrtS (x : BitVec 32) : BitVec 32 :=
-  if x.sle 1 then x else sqrtLoopS x 40 (x.sshiftRight 1)
+  if x.sle 1 then x else sqrtLoopS x x.toNat (x.sshiftRight 1)
 
 /-- mod(int, int), gtx/integer.inl:66-69 `return ((x % y) + y) % y;` -/
 def modS (x y : BitVec 32) : BitVec 32 := ((x.srem y) + y).srem y
@@ -674,8 +674,10 @@ def isSqrt (x r : Int) : Bool := 0 ≤ r && r * r ≤ x && x < (r + 1) * (r + 1)
 def fact : Nat → Nat
   | 0 => 1
   | n+1 => (n+1) * fact n
-/-- "x - y * floor(x / y)" -/
+/-- "x - y * floor(x / y)" (executable form) -/
 def floorMod (x y : Int) : Int := x - y * (x.fdiv y)
+/-- r = x - y·⌊x/y⌋ characterised without division: r ≡ x (mod y), r has the sign of y and |r| < |y| -/
+def IsFloorMod (x y r : Int) : Prop := y ∣ x - r ∧ ((0 < y ∧ 0 ≤ r ∧ r < y) ∨ (y < 0 ∧ y < r ∧ r ≤ 0))
 
 end Spec
 end GlmVerif.C18
